@@ -38,6 +38,15 @@ def stmt_paths(stmts, facts, defs, flag, probe=None, opaque_loops=False):
         df[nm] = "(%s)" % expand(norm(st.value), defs) if not isinstance(st.value, (ast.Name, ast.Attribute, ast.Subscript)) else expand(norm(st.value), defs)
         for r in cont(facts, df):
             yield r
+    elif isinstance(st, ast.Assign) and len(st.targets) == 1 and isinstance(st.targets[0], ast.Tuple) and isinstance(st.value, ast.Tuple) \
+            and len(st.targets[0].elts) == len(st.value.elts) and all(isinstance(t, ast.Name) for t in st.targets[0].elts) \
+            and not ({t.id for t in st.targets[0].elts} & {x.id for x in ast.walk(st.value) if isinstance(x, ast.Name)}):
+        # a, b = x, y with x, y not reading a or b: two plain definitions
+        df = dict(defs)
+        for t, v in zip(st.targets[0].elts, st.value.elts):
+            df[t.id] = "(%s)" % expand(norm(v), defs) if not isinstance(v, (ast.Name, ast.Attribute, ast.Subscript)) else expand(norm(v), defs)
+        for r in cont(facts, df):
+            yield r
     elif isinstance(st, ast.If):
         for pol, blk in ((True, st.body), (False, st.orelse)):
             for alt in alts_of(st.test, pol):
